@@ -898,6 +898,22 @@ def who_writes_reader_state(chk, prog):
             if payload_events(prog, fn, sname, tag, payload):
                 cache_fns.add(fn)
     n = 0
+
+    def set_up_fn(g, depth=0, _seen=None):
+        """constructor / load / copy, or a static helper that only such functions call"""
+        if g.name.endswith(allowed_suffix) or g.name.startswith(("sqfs_xattr_reader_load", "sqfs_data_reader_load")):
+            return True
+        if not g.internal or depth > 3:
+            return False
+        _seen = _seen if _seen is not None else set()
+        if g in _seen:
+            return False
+        _seen.add(g)
+        cs = prog.callers_of(g)
+        if not cs or any(g in impls for impls in prog.slots.values()):
+            return False
+        return all(set_up_fn(c.fn, depth + 1, _seen) for c in cs)
+
     for fn in prog.functions():
         for i in fn.insts():
             if i.op != "store":
@@ -908,8 +924,7 @@ def who_writes_reader_state(chk, prog):
                     continue
                 n += 1
                 inst = "%s:%s.%s" % (fn.name, sname.split(".")[-1], f)
-                if base_is_fresh(prog, i.ops[1], fn) or fn.name.endswith(allowed_suffix) or \
-                        fn.name.startswith(("sqfs_xattr_reader_load", "sqfs_data_reader_load")):
+                if base_is_fresh(prog, i.ops[1], fn) or set_up_fn(fn):
                     chk.ok("K2-state", inst, i, "constructor / load / copy", nontrivial=False)
                 elif fn in cache_fns:
                     chk.ok("K2-state", inst, i, "cache function covered by K9")
